@@ -6,7 +6,7 @@
 //! ErrorKind::Interrupted is recorded as `Err:Interrupted` and *retried* (at most a bounded number
 //! of times), as a conforming caller would do.
 
-use std::io::{self, BufRead, Read};
+use std::io::{self, BufRead, Read, Seek};
 
 use noodles_bam as bam;
 use noodles_bcf as bcf;
@@ -644,6 +644,60 @@ fn dec_bed<R: BufRead>(src: R, t: &mut T) {
                 t.err(&e);
                 if !recoverable(&e, &mut nerr) {
                     break;
+                }
+            }
+        }
+        if t.full() {
+            break;
+        }
+    }
+}
+
+// ---------------------------------------------------------------------------------------------
+// R: BufRead + Seek
+
+/// "fastaq": fasta::io::Reader::query (seek + read_sequence_limit) for every record of the index
+/// built from the same bytes (the index is computed from the plain data, so only the query path is
+/// fed by the adversary).
+pub fn decode_bs<R: BufRead + Seek>(fmt: &str, data: &[u8], mk: &dyn Fn() -> R, t: &mut T) {
+    assert_eq!(fmt, "fastaq");
+    let mut recs = Vec::new();
+    let mut ix = fasta::io::Indexer::new(data);
+    loop {
+        match ix.index_record() {
+            Ok(Some(r)) => recs.push(r),
+            Ok(None) => break,
+            Err(_) => {
+                t.push("index-Err".into());
+                break;
+            }
+        }
+        if recs.len() > 50 {
+            break;
+        }
+    }
+    let index = fasta::fai::Index::from(recs.clone());
+    let mut r = fasta::io::Reader::new(mk());
+    for rec in &recs {
+        let name = String::from_utf8_lossy(rec.name().as_ref()).to_string();
+        let len = rec.length();
+        let mut regions = vec![name.clone()];
+        if len >= 1 {
+            regions.push(format!("{name}:1-{len}"));
+            regions.push(format!("{name}:{len}-{len}"));
+            regions.push(format!("{name}:{}-{}", (len / 3).max(1), (2 * len / 3).max(1)));
+            regions.push(format!("{name}:2"));
+        }
+        for reg in regions {
+            let Ok(region) = reg.parse::<noodles_core::Region>() else {
+                t.push(format!("Q {reg} unparsable"));
+                continue;
+            };
+            match retrying(t, || r.query(&index, &region)) {
+                Ok(rec) => t.push(format!("Q {reg} {}", nv::hex(rec.sequence().as_ref()))),
+                Err(e) => {
+                    t.push(format!("Q {reg}"));
+                    t.err(&e);
                 }
             }
         }
